@@ -490,7 +490,7 @@ class RunLengthArray(NPSIndexable, np.lib.mixins.NDArrayOperatorsMixin):
         return self.__class__(np.append(all_events, self._events[-1]), sum_values)
 
     def _get_position(self, idx):
-        idx = np.where(idx < 0, len(self)+idx, idx)
+        idx = np.where(idx < 0, self._ends[-1]+idx, idx)
         return self._values[np.searchsorted(self._events, idx, side="right")-1]
 
     def _ragged_slice(self, starts, stops):
